@@ -60,6 +60,10 @@ def _value_kinds(lens, idx, rng):
         if k != 1:
             out.append({"t": "column", "n": k + 1})
         out.append({"t": "ragged", "lens": [len(g) for g in groups]})
+        gl = [len(g) for g in groups]
+        if gl and gl[0] >= 1 and all(l == gl[0] for l in gl):
+            # equally long rows also take a MATRIX (one matrix row per selected row), in any memory layout
+            out.append({"t": "ragged", "lens": gl, "as": "matrix", "layout": rng.choice(["C", "F", "T", "strided"])})
         bad = [len(g) for g in groups]
         if bad:
             j = rng.randrange(len(bad)); bad[j] += 1
@@ -185,6 +189,10 @@ def _py_value(p, vpool):
         arr = np.array([vpool[i] for i in vi["v"]], dtype=dt).reshape(-1, 1)
         return arr
     flat = np.array([vpool[i] for r in vi["v"] for i in r], dtype=dt)
+    if p["val"].get("as") == "matrix":
+        m = flat.reshape(len(vi["v"]), len(vi["v"][0]))
+        lay = p["val"].get("layout", "C")
+        return np.asfortranarray(m) if lay == "F" else np.ascontiguousarray(m.T).T if lay == "T" else np.repeat(m, 2, axis=1)[:, ::2] if lay == "strided" else m
     return RaggedArray(flat, [len(r) for r in vi["v"]])
 
 
